@@ -35,6 +35,8 @@ func checkC07(r *Report, p *Program) {
 	})
 	r07_9(r, p)
 	objectMapContracts(r, p, "R07.10")
+	r07_tables(r, p)
+	r09_tables(r, p, "R07.12")
 }
 
 // r07_9: which fields are revisioned. The default (all of spec) applies whenever the
@@ -314,6 +316,65 @@ func r07_3(r *Report, p *Program) {
 					return strings.Contains(a, "GetStatusCondition)(call(unstructured.Unstructured.UnstructuredContent)(p1), ") && strings.HasSuffix(a, ".Type)#0 == nil)")
 				}) {
 					ok, why = false, "a configured check is passed without establishing that the child has a condition of that type (path: "+pa.Cond()+"): a child that has not reported the condition yet lets the rollout go on"
+				}
+			}
+			// iteration table: goes on ⇔ found ∧ (status not configured ∨ equal) ∧ (reason not configured ∨ equal)
+			for _, pa := range ips {
+				fieldEq := func(fld string) int {
+					res := 0
+					for _, lt := range pa.Lits {
+						if lt.Op != token.EQL || lt.X == nil || lt.Y == nil {
+							continue
+						}
+						if _, _, isNil := lt.NilTest(); isNil {
+							continue
+						}
+						x, y := E(lt.X), E(lt.Y)
+						if strings.Contains(y, "GetStatusCondition)(") {
+							x, y = y, x
+						}
+						if !strings.Contains(x, "GetStatusCondition)(") || !strings.HasSuffix(x, "#0."+fld) || !strings.Contains(y, "."+fld) {
+							continue
+						}
+						v := -1
+						if lt.Pos {
+							v = 1
+						}
+						res = v
+					}
+					return res
+				}
+				configured := func(fld string) int {
+					// +1 configured, -1 not configured, 0 not tested
+					return -val(pa, -1, func(a string) bool {
+						return strings.HasSuffix(a, "."+fld+" == nil)") && !strings.Contains(a, "GetStatusCondition)(")
+					})
+				}
+				_, isR := pa.End.(*ssa.Return)
+				for _, fld := range []string{"Status", "Reason"} {
+					cf, eq := configured(fld), fieldEq(fld)
+					derefEq := 0 // ptr.Deref(check.F, observed) == observed form decides both at once
+					for _, lt := range pa.Lits {
+						if strings.Contains(lt.Atom, "ptr.Deref") && strings.Contains(lt.Atom, "."+fld) && lt.Op == token.EQL {
+							derefEq = -1
+							if lt.Pos {
+								derefEq = 1
+							}
+						}
+					}
+					if derefEq != 0 {
+						if !isR && derefEq != 1 {
+							ok, why = false, "a "+strings.ToLower(fld)+" mismatch passes the check (path: "+pa.Cond()+")"
+						}
+						continue
+					}
+					if !isR {
+						if !(cf == -1 || cf == 1 && eq == 1) {
+							ok, why = false, sf("an iteration goes on to the next check with %s configured=%d equal=%d: the child's %s was not required to equal the configured one (path: %s)", fld, cf, eq, strings.ToLower(fld), pa.Cond())
+						}
+					} else if rt := pa.End.(*ssa.Return); isErrReturn(rt) && eq == 1 && fieldEq(other(fld)) != -1 && val(pa, -1, func(a string) bool { return strings.Contains(a, "GetStatusCondition)(") && strings.HasSuffix(a, " == nil)") }) != 1 {
+						ok, why = false, "a child whose condition "+strings.ToLower(fld)+" equals the configured one fails the check: a healthy child blocks the rollout for ever"
+					}
 				}
 			}
 			// no over-constraint: a mismatch error is only possible for a field the check
@@ -687,4 +748,200 @@ func r07_6b(r *Report, p *Program) {
 		}}.Find()
 		r.Check(rule, FK(f)+"[waiting-is-not-an-error]", p.InstrPos(gate.Instr), w == nil, "the gate's refusal never becomes syncRollingUpdate's error", "the gate's refusal is returned as the error of the rollout step: the sync is aborted (and retried with back-off) before ManageChildren can create/update the very child the rollout waits for")
 	}
+}
+
+// r07_tables: the complete per-iteration decision tables of syncRollingUpdate's two
+// loops (both directions: which effects happen, and that they happen).
+func r07_tables(r *Report, p *Program) {
+	const rule = "R07.11"
+	r.Rule(rule, "syncRollingUpdate, loop over the latest desired children: ¬rolling kind ⇒ nothing; unclaimed ⇒ claim for latest; claimed by latest ⇒ nothing; claimed by another ⇒ move iff observed ∧ merge computable ∧ no-op. Loop over the hook's children: a child is passed over ⇔ its kind is not rolling ∨ it is on latest; the claim looked at is claimed[group,kind][name] whenever that kind has claims")
+	r.Floor(rule, 2)
+	f := fn(r, p, rule, "controller/composite.parentController.syncRollingUpdate")
+	if f == nil {
+		return
+	}
+	loops := engine.RangeLoops(f)
+	var outer1, inner1, loop2 *engine.RangeLoop
+	for _, l := range loops {
+		x := E(l.X)
+		switch {
+		case x == "p1[0].desiredChildMap":
+			outer1 = l
+		case strings.HasPrefix(x, "next(range(p1[0].desiredChildMap))"):
+			inner1 = l
+		case x == "p1[0].syncResult.Children":
+			loop2 = l
+		}
+	}
+	if outer1 == nil || inner1 == nil || loop2 == nil {
+		r.Fail(rule, FK(f), p.Pos(f.Pos()), "anchor-lost", "the two loops of syncRollingUpdate were not found")
+		return
+	}
+	isEff := func(in ssa.Instruction) bool {
+		return isCallTo(in, "parentRevision.addChild", "parentRevision.removeChild", "childClaimMap.setParentRevision")
+	}
+	effName := func(in ssa.Instruction) string {
+		c := in.(ssa.CallInstruction)
+		k := engine.CallKey(c.Common())
+		recv := E(c.Common().Args[0])
+		switch {
+		case strings.HasSuffix(k, ".addChild"):
+			if recv == "p1[0]" {
+				return "add(latest)"
+			}
+			return "add(" + recv + ")"
+		case strings.HasSuffix(k, ".removeChild"):
+			if recv == "p1[0]" {
+				return "remove(latest)"
+			}
+			return "remove(other)"
+		default:
+			if len(c.Common().Args) == 5 && E(c.Common().Args[4]) == "p1[0]" {
+				return "claim:=latest"
+			}
+			return "claim:=" + E(c.Common().Args[len(c.Common().Args)-1])
+		}
+	}
+	// --- first loop, per kind: names are processed ⇔ the kind is rolling
+	rolling := func(l Lit) bool { return strings.Contains(l.Atom, "updateStrategyMap.isRolling)(p0.updateStrategy, ") }
+	ok, why := true, ""
+	if w := unguarded(f, []engine.Point{{B: outer1.Body}}, inner1.Header.Instrs[0], func(l Lit) bool { return l.Pos && rolling(l) }); w != nil {
+		ok, why = false, "the children of a kind whose strategy is not rolling are (re)assigned to revisions"
+	}
+	if w := (engine.Query{Fn: f, From: []engine.Point{{B: outer1.Body}}, Target: func(in ssa.Instruction) bool { return in.Block() == outer1.Header },
+		CutInstr: func(in ssa.Instruction) bool { return in.Block() == inner1.Header },
+		CutEdge:  func(b *ssa.BasicBlock, i int, l *Lit) bool { return l != nil && !l.Pos && rolling(*l) }}).Find(); w != nil {
+		ok, why = false, "a rolling kind's children can be skipped altogether"
+	}
+	// --- first loop, per name
+	paths, err := engine.EnumPaths(f, engine.EnumOpts{Start: inner1.Body, Leave: func(b *ssa.BasicBlock) bool { return b == inner1.Header || b == inner1.Exit }, Effect: isEff})
+	if err != nil {
+		ok, why = false, err.Error()
+	}
+	var rows []map[string]string
+	for _, pa := range paths {
+		claimed := val(pa, -1, func(a string) bool { return strings.Contains(a, "childClaimMap.getKind)(") && strings.HasSuffix(a, "]#1") })
+		onLatest := val(pa, -1, func(a string) bool {
+			return strings.Contains(a, "childClaimMap.getKind)(") && strings.Contains(a, "]#0") && (strings.HasSuffix(a, " == p1[0])") || strings.HasPrefix(a, "(p1[0] == "))
+		})
+		observed := -val(pa, -1, func(a string) bool { return strings.HasPrefix(a, "(call(controller/common/api/v") && strings.Contains(a, "FindGroupKindName)(") && strings.HasSuffix(a, " == nil)") })
+		mergeOK := val(pa, -1, func(a string) bool { return strings.HasPrefix(a, "(call(controller/common.ApplyUpdate)(") && strings.HasSuffix(a, "#1 == nil)") })
+		noop := val(pa, -1, func(a string) bool { return strings.HasPrefix(a, "call(controller/common.DeepEqual)(") })
+		var effs []string
+		for _, e := range pa.Effects {
+			effs = append(effs, effName(e))
+		}
+		got := strings.Join(effs, ",")
+		want := ""
+		switch {
+		case claimed == -1:
+			want = "add(latest),claim:=latest"
+		case claimed == 1 && onLatest == 1:
+			want = ""
+		case claimed == 1 && onLatest == -1 && observed == 1 && mergeOK == 1 && noop == 1:
+			want = "add(latest),remove(other),claim:=latest"
+		case claimed == 1 && onLatest == -1:
+			want = ""
+		default:
+			ok, why = false, "an iteration does not decide claimed / on-latest: ["+pa.Cond()+"]"
+		}
+		rows = append(rows, map[string]string{"claimed": sf("%d", claimed), "onLatest": sf("%d", onLatest), "observed": sf("%d", observed), "mergeOK": sf("%d", mergeOK), "noop": sf("%d", noop), "effects": got})
+		if got != want && ok {
+			ok, why = false, sf("for claimed=%d onLatest=%d observed=%d mergeOK=%d noop=%d the iteration does [%s], want [%s]", claimed, onLatest, observed, mergeOK, noop, got, want)
+		}
+		if pa.EndKind == "return" {
+			ok, why = false, "the first loop returns from inside"
+		}
+	}
+	r.Table("R07.11 first loop", rows)
+	r.Check(rule, FK(f)+"[first-loop-table]", p.Pos(f.Pos()), ok, "claim/move table of the pre-pass", why)
+
+	// --- second loop
+	ok2, why2 := true, ""
+	gates := callsTo(f, false, ".shouldContinueRolling")
+	if len(gates) != 1 {
+		r.Check(rule, FK(f)+"[second-loop-table]", p.Pos(f.Pos()), false, "", "expected exactly one health gate")
+		return
+	}
+	gi := gates[0].Instr.(ssa.Instruction)
+	onLatest2 := func(l Lit) bool {
+		return l.Op == token.EQL && (E(l.X) == "p1[0]" || E(l.Y) == "p1[0]") && strings.Contains(l.Atom, "childClaimMap.getKind")
+	}
+	// (a) passed over ⇒ ¬rolling ∨ on latest
+	if w := (engine.Query{Fn: f, From: []engine.Point{{B: loop2.Body}}, Target: func(in ssa.Instruction) bool { return in.Block() == loop2.Header },
+		CutInstr: func(in ssa.Instruction) bool { return in == gi },
+		CutEdge: func(b *ssa.BasicBlock, i int, l *Lit) bool {
+			if l == nil {
+				return false
+			}
+			return !l.Pos && rolling(*l) || l.Pos && onLatest2(*l)
+		}}).Find(); w != nil {
+		ok2, why2 = false, "a child can be passed over although its kind is rolling and it is not on the latest revision; "+pathWhy(w)
+	}
+	// (b) gate only for rolling kinds not on latest
+	if w := unguarded(f, []engine.Point{{B: loop2.Body}}, gi, func(l Lit) bool { return l.Pos && rolling(l) }); w != nil {
+		ok2, why2 = false, "children of a non-rolling kind take part in the rollout"
+	}
+	if w := unguarded(f, []engine.Point{{B: loop2.Body}}, gi, func(l Lit) bool { return !l.Pos && onLatest2(l) }); w != nil {
+		ok2, why2 = false, "a child already on the latest revision triggers a move"
+	}
+	// (c) the claim compared with latest is claimed[group,kind][name], looked up whenever that kind has claims
+	var cmp *Lit
+	for _, b := range loop2.BodyBlocks() {
+		for i := range b.Succs {
+			if l, has := engine.EdgeLit(b, i); has && onLatest2(l) {
+				ll := l
+				cmp = &ll
+			}
+		}
+	}
+	if cmp == nil {
+		ok2, why2 = false, "no comparison of the child's claim with the latest revision"
+	} else {
+		other := cmp.X
+		if E(other) == "p1[0]" {
+			other = cmp.Y
+		}
+		ph, isPhi := engine.ResolveLocal(other).(*ssa.Phi)
+		if !isPhi || len(ph.Edges) != 2 {
+			ok2, why2 = false, "the claim compared with latest is "+E(other)+", not 'nil unless the kind has claims'"
+		} else {
+			for i, e := range ph.Edges {
+				pred := ph.Block().Preds[i]
+				c, isConst := e.(*ssa.Const)
+				if isConst && c.IsNil() {
+					// the nil arm is taken only when the kind's claim map is nil
+					w := engine.Query{Fn: f, From: []engine.Point{{B: loop2.Body}}, Target: func(in ssa.Instruction) bool { return in.Block() == ph.Block() && in == ssa.Instruction(ph) },
+						CutEdge: func(b *ssa.BasicBlock, j int, l *Lit) bool {
+							if b == pred && b.Succs[j] == ph.Block() && l == nil {
+								return false
+							}
+							// cut every way into the phi block except via pred, and on pred require 'claimMap == nil'
+							if b.Succs[j] == ph.Block() && b != pred {
+								return true
+							}
+							if l != nil {
+								if v, isNil, isT := l.NilTest(); isT && isNil && strings.Contains(E(v), "childClaimMap.getKind)(") && b.Succs[j] == ph.Block() {
+									return true // correct: nil arm across 'claimMap == nil'
+								}
+							}
+							return false
+						}}.Find()
+					if w != nil {
+						ok2, why2 = false, "the child's claim is taken to be nil although its kind has claims (the lookup is skipped): it then looks 'not on latest' for ever and the rollout moves it again and again"
+					}
+				} else if !strings.Contains(E(e), "childClaimMap.getKind)(") {
+					ok2, why2 = false, "the claim is "+E(e)+", not claimed[group,kind][name]"
+				}
+			}
+		}
+	}
+	r.Check(rule, FK(f)+"[second-loop-table]", p.Pos(f.Pos()), ok2, "skip ⇔ ¬rolling ∨ on latest; claim = claimed[group,kind][name]", why2)
+}
+
+func other(fld string) string {
+	if fld == "Status" {
+		return "Reason"
+	}
+	return "Status"
 }
